@@ -1206,7 +1206,7 @@ func runE2E(e *lp.Exec, head string, ops []string) {
 		if err != nil {
 			panic(err)
 		}
-		_ = c.SetDeadline(time.Now().Add(20 * time.Second))
+		_ = c.SetDeadline(time.Now().Add(90 * time.Second))
 		// the handshake; the messages follow in one write as soon as the 101 response is here — the server writes
 		// that response BEFORE it calls the open handler, so they race the (slow) open handler
 		_, _ = c.Write([]byte(upgradeReq))
@@ -1227,6 +1227,7 @@ func runE2E(e *lp.Exec, head string, ops []string) {
 		var wire []byte
 		var ids []string
 		prob := ""
+		starved := false
 		if ok101 {
 			buf := make([]byte, 1<<16)
 			want := writers * nfrag(size, maxf)
@@ -1239,6 +1240,9 @@ func runE2E(e *lp.Exec, head string, ops []string) {
 				n, err := br.Read(buf)
 				wire = append(wire, buf[:n]...)
 				if err != nil {
+					if ne, ok := err.(net.Error); ok && ne.Timeout() {
+						starved = true // the client's own deadline: the machine is overloaded, nothing can be concluded
+					}
 					break
 				}
 			}
@@ -1254,6 +1258,14 @@ func runE2E(e *lp.Exec, head string, ops []string) {
 		cl.done, cl.overlap, cl.closes = append([]string(nil), l.done...), l.overlap, l.closes
 		l.mu.Unlock()
 		what := fmt.Sprintf("e2e path=%s queued=%v", path, queued)
+		if starved || (!ok101 && err != nil && isTimeout(err)) {
+			// one-sided: a client-side timeout on an overloaded machine says nothing about the property
+			e.P("> %s skip=1", ln)
+			e.P("R skipped")
+			e.Count("e2e", "skipped-client-timeout")
+			stop()
+			continue
+		}
 		if !ok101 {
 			e.Oracle("c14-callback-order", "%s: upgrade failed: %v", what, err)
 		}
@@ -1303,6 +1315,11 @@ func runE2E(e *lp.Exec, head string, ops []string) {
 		e.Count("e2e", path)
 		stop()
 	}
+}
+
+func isTimeout(err error) bool {
+	ne, ok := err.(net.Error)
+	return ok && ne.Timeout()
 }
 
 func stopWithin(f func()) {
